@@ -1172,16 +1172,20 @@ impl StorageEngine {
                 Value::List(list) => {
                     let len = list.len() as isize;
                     
-                    let start = if start < 0 { (len + start).max(0) } else { start } as usize;
-                    let stop = if stop < 0 { (len + stop).max(0) } else { stop } as usize;
+                    let start = if start < 0 { len.saturating_add(start).max(0) } else { start } as usize;
+                    // a stop index before the first element selects nothing
+                    let stop = if stop < 0 { len.saturating_add(stop) } else { stop };
                     
                     let mut result = Vec::new();
-                    for (i, item) in list.iter().enumerate() {
-                        if i >= start && i <= stop {
-                            result.push(item.clone());
-                        }
-                        if i > stop {
-                            break;
+                    if stop >= 0 {
+                        let stop = stop as usize;
+                        for (i, item) in list.iter().enumerate() {
+                            if i >= start && i <= stop {
+                                result.push(item.clone());
+                            }
+                            if i > stop {
+                                break;
+                            }
                         }
                     }
                     result
@@ -1255,13 +1259,17 @@ impl StorageEngine {
                 Value::List(list) => {
                     let len = list.len() as isize;
                     
-                    let start = if start < 0 { (len + start).max(0) } else { start } as usize;
-                    let stop = if stop < 0 { (len + stop).max(0) } else { stop } as usize;
+                    let start = if start < 0 { len.saturating_add(start).max(0) } else { start } as usize;
+                    // a stop index before the first element keeps nothing
+                    let stop = if stop < 0 { len.saturating_add(stop) } else { stop };
                     
                     let mut new_list = VecDeque::new();
-                    for (i, item) in list.iter().enumerate() {
-                        if i >= start && i <= stop {
-                            new_list.push_back(item.clone());
+                    if stop >= 0 {
+                        let stop = stop as usize;
+                        for (i, item) in list.iter().enumerate() {
+                            if i >= start && i <= stop {
+                                new_list.push_back(item.clone());
+                            }
                         }
                     }
                     
